@@ -26,6 +26,26 @@ def run(c: Check):
                         dict(scenario=dict(kind="realobs", total=1), observed=r))
         else:
             c.count("realobs:observer-alive")
+    rk = json.load(open(c.replay))["replay"].get("scenario", {}).get("kind") if c.replay else None
+    if not c.replay or rk == "abortwake":
+        # the real scheduler loop (Scheduler.aio_submit / aio_start) around the token: a wake-up that arrives
+        # while an aborted start unwinds must not be lost
+        sc = dict(kind="abortwake", scratch=str(c.scratch()))
+        r = run_impl("drive_c09.py", dict(scenarios=[sc], timeout=90), timeout=150)[0]
+        c.extra["aborted_start_wakeup"] = r
+        c.evaluations += 1
+        if r.get("error") or not r.get("aborted_start_seen"):
+            c.count("abortwake:no-verdict")
+        elif not r.get("job_ran"):
+            sc.pop("scratch")
+            c.violation("C09:ready-job-never-started-after-aborted-start",
+                        "real scheduler: the start of the job was aborted (the token had been taken by another process), "
+                        "the token was given back while the aborted start was releasing the job lock; the job is %s, "
+                        "the token shows %s available with files %s, and the job is never started"
+                        % (r.get("job_state"), r.get("available"), r.get("files")),
+                        dict(scenario=sc, observed=r))
+        else:
+            c.count("abortwake:ok")
     c.level_assumptions = [
         "watchdog delivers each create/modify/delete event at most once, possibly late, in any order; an exception "
         "escaping a handler ends the observer thread (EventDispatcher.run only catches queue.Empty)",
